@@ -339,7 +339,7 @@ def build(rng):
 
     # ---- C''. tape index of a container x nesting: 2n scalar tokens first, then containers of every kind whose links (`end:` = parent
     # while open, End(i), the grand-parent look-up at each close) are tape indices >= 2n
-    for n in LADDER:
+    for n in LADDER + [32766, 32767, 32768, 32769]:          # the outer object sits at tape index 2n + 1: 65533 65535 65537 65539
         d = Doc(b" ")
         for i in range(n):
             d.kv(b"k", b"%d" % (i % 10))
@@ -557,8 +557,8 @@ def run_part(ctx):
     for n in CHAINS:
         chains.append(("reuse_chain_length", n, [small_doc(i + n) for i in range(n)]))
     rej = [(b"a={", "ERR"), (b'a="x', "ERR"), (b"a=}", "ERR"), (b"a={1 2", "ERR"), (b"a={b={c=d", "ERR")]
-    for n in (16, 64, 257, 1025, 4097):
-        for kind in ("fields", "array"):
+    for n in (16, 64, 257, 1025, 4097, 16385, 65536):
+        for kind in ("fields", "array") if n < 65536 else ("array",):
             b1 = big_doc(n, kind)
             b2 = big_doc(n // 2 + 1, "array")
             junk = (b1[0] + b" x={", "ERR")          # rejected at the very end: its tokens stay on the tape
